@@ -10,9 +10,15 @@ import (
 	"fmt"
 	"runtime/debug"
 	"sort"
+	"sync/atomic"
 	"time"
 	"unsafe"
 )
+
+// Progress counts scheduling steps; a harness watchdog can use it to detect a
+// thread that blocked outside the scheduler's control (no per-step timer here:
+// it would dominate the cost of a step).
+var Progress atomic.Int64
 
 type Event struct {
 	Thread int
@@ -401,17 +407,8 @@ func Run(threads []func(), prefix []int, cfg Config, attach func(h any)) *Execut
 		}
 		s.running = t
 		s.resume[t] <- struct{}{}
-		var a arrival
-		select {
-		case a = <-s.arrive:
-		case <-time.After(60 * time.Second):
-			// a thread blocked outside the scheduler's control (e.g. on a real OS primitive)
-			s.x.Deadlock = true
-			s.x.Blocked = append(s.x.Blocked, t)
-			s.x.Diverged = "thread did not reach a visible point within 60 s (blocked on an uninstrumented primitive?)"
-			s.running = -1
-			return s.x
-		}
+		Progress.Add(1)
+		a := <-s.arrive
 		if a.done {
 			s.done[a.thread] = true
 			if a.panic != "" {
